@@ -64,7 +64,7 @@ def main():
     allprops = "--all-props" in args
     tier = "thorough" if "--thorough" in args else "quick"
     results = []
-    for kind in ("seeded", "quiet"):
+    for kind in ("seeded", "classic", "quiet"):
         base = os.path.join(VERIF, kind)
         for name in sorted(os.listdir(base)) if os.path.isdir(base) else []:
             d = os.path.join(base, name)
@@ -78,7 +78,7 @@ def main():
             props = PROPS
             res = run_one(kind, name, props, tier=tier)
             res["property"] = meta.get("property")
-            if kind == "seeded":
+            if kind in ("seeded", "classic"):
                 res["detected_by"] = [p for p in PROPS if res.get(p, {}).get("exit") == 1]
                 res["harness_errors"] = [p for p in PROPS if res.get(p, {}).get("exit") not in (0, 1)]
                 res["detected"] = bool(res["detected_by"])
